@@ -228,6 +228,10 @@ def run(ctx):
             rc, _, _, steps = strace.run(st, argv, stdin)
             prog = strace.summarize(steps); progs[name] = prog
             ctx.count(1, key=("T3-writer", name))
+            lok, toks, end = strace.lock_program_ok(ctx.model, steps)
+            ctx.count(1, key=("T3-lock automaton", name, " ".join(toks))); ctx.tie_tally("T3 lock automaton (LockFile.acquireOK)", " ".join(toks))
+            if not lok:
+                ctx.tie_broken("T3 lock acquisition " + name, {"lock_calls": toks, "automaton_ends_in": end, "expected": "open+ flock+ unlock (LockFile.next)"})
             locks = [s for s in steps if s["call"] == "flock"]
             ok = (len(locks) == 2 and sorted(locks[0].get("flags", [])) == ["LOCK_EX", "LOCK_NB"] and locks[1].get("flags") == ["LOCK_UN"])
             i_lock = steps.index(locks[0]) if locks else 0; i_un = steps.index(locks[1]) if len(locks) > 1 else len(steps)
@@ -249,11 +253,17 @@ def run(ctx):
                 os.unlink(os.path.join(st.dir, "lock"))
             except OSError:
                 pass
-            rc, _, _, steps = strace.run(st, argv, stdin)
+            rc, _, _, steps = strace.run(st, argv, stdin, calls=strace.CALLS + "," + strace.STAT_CALLS)
             sh = strace.shape(ctx.model, steps)
             ctx.count(1, key=("T3-writer, lock file missing", name))
             if rc == 0 and not sh["writer"]:
                 ctx.tie_broken("T3 writer program %s (lock file missing)" % name, {"program": strace.summarize(steps), "expected": "the lock file created in place, then the usual lock section"})
+            # the calls on the lock file follow the automaton of ErgoModel.LockFile (C02_one_process_inside_whatever_the_lock_file speaks about its runs)
+            ok, toks, end = strace.lock_program_ok(ctx.model, steps)
+            ctx.count(1, key=("T3-lock automaton, lock file missing", name, " ".join(toks))); ctx.tie_tally("T3 lock automaton (LockFile.acquireOK)", " ".join(toks))
+            if not ok:
+                ctx.tie_broken("T3 lock acquisition %s (lock file missing)" % name, {"lock_calls": toks, "automaton_ends_in": end,
+                               "expected": "open- stat- creat open+ flock+ unlock (LockFile.next)"})
     finally:
         st.close()
     r = gen.Rng(ctx.seed * 1000003 + 2)
